@@ -122,6 +122,9 @@ func H_helptext() {
 	var want []string
 
 	desc := vWord("desc", wl)
+	if vChoice("emptydesc", 2) == 1 {
+		desc = "" // a command may have no short description
+	}
 	long := ""
 	if vChoice("haslong", 2) == 1 {
 		long = vDesc("long", wl)
@@ -159,8 +162,8 @@ func H_helptext() {
 		specParts := []string{}
 		if narg >= 1 {
 			d, env, hide := variant("arg")
-			c.String(StringArg{Name: "SRC", Desc: d, EnvVar: env, Value: "dflt", HideValue: hide})
-			argLines = append(argLines, vRowLines("SRC", d, env, "\"dflt\"", hide)...)
+			c.String(StringArg{Name: "SRC", Desc: d, EnvVar: env, Value: "100%d", HideValue: hide})
+			argLines = append(argLines, vRowLines("SRC", d, env, "\"100%d\"", hide)...)
 			specParts = append(specParts, "SRC")
 		}
 		if narg >= 2 {
@@ -274,8 +277,10 @@ func H_helptext() {
 	if useLong && long != "" {
 		shown = long
 	}
-	for _, l := range strings.Split(shown, "\n") {
-		want = append(want, l)
+	if shown != "" {
+		for _, l := range strings.Split(shown, "\n") {
+			want = append(want, l)
+		}
 	}
 	want = append(want, expectBody...)
 	got := vNormLines(buf.s)
